@@ -7,8 +7,8 @@ from harness.urlutil import pyparts
 
 PID = "C01"
 URL_DATA = os.path.join(tlc.SPEC_DIR, "data", "urlgen.json")
-DANGEROUS = "{5,6,7,8,9,10,11,12,14,16,17,19,20,21,22,23,24,25,26,27,28,29,30,32,33,35,36,39,41,42,43}"
-ALL = "{" + ",".join(str(i) for i in range(1, 44)) + "}"      # every token of Tokens.tla
+DANGEROUS = "{5,6,7,8,9,10,11,12,14,16,17,19,20,21,22,23,24,25,26,27,28,29,30,32,33,35,36,39,41,42,43,44}"
+ALL = "{" + ",".join(str(i) for i in range(1, 45)) + "}"      # every token of Tokens.tla
 
 
 def execute(case):
@@ -87,7 +87,7 @@ def run(ctx):
     ctx.traces_validated = len(cases) + len(scases)
     ctx.exhaustive = True
     ctx.rule = ("inputs: 12 focus contexts (user, password, path, query key, query value, fragment) x every token sequence of length <= %d "
-                "over the 43-token alphabet, TLC RandomSubset sequences of lengths %s, every sequence of length 3..4 (thorough 5) over 8 glue-prone tokens in 4 contexts, and %s of the component-form product "
+                "over the 44-token alphabet, TLC RandomSubset sequences of lengths %s, every sequence of length 3..4 (thorough 5) over 8 glue-prone tokens in 4 contexts, and %s of the component-form product "
                 "(scheme x userinfo x host x port x path x query x fragment); x quoted x strip_fragment, default_protocol alternating; "
                 "non-trivial = result differs from input" % (gl, rlen, "all" if sn == 0 else "a RandomSubset of %d" % sn))
     ctx.assumptions = ["Url.tla's Split/NetParts = urllib.parse.urlsplit (cross-checked per event: MODEL-DRIFT)",
